@@ -186,6 +186,8 @@ def prop_C09(run):
     pc = run.anchor("FIX4", "driver::parse_command")
     if pc:
         rules_tab.tab_cli_iters(run, pc, rules_tab.parse_usage(run.repo))
+    import rules_cond
+    rules_cond.prepass_loop_rules(run)          # the budget bounds the resolver passes only: the constant/#if pre-pass runs to its fixed point
     run.rules_run += ["FIX1", "FIX2 stability comparisons over the whole kept value", "FIX4 counter bounded by the budget, flags derived from the counter, max_iterations read nowhere else, asserts only in a last pass, --iters 0 rejected"]
 
 
@@ -345,6 +347,7 @@ def prop_C12(run):
     rules_unit.parenthesized_span(run)
     rules_unit.addrspan_positions(run)
     rules_unit.line_column_counts(run)
+    rules_unit.walker_text(run)                 # spans index the stored text: the parser reads that text unchanged
     n = lim2_obligations(run, only=lambda key, f: "symbol_format" in key or "format_addrspan" in key)
     rules_mpt.symbol_listing(run)
     rules_mpt.mesen_header_rule(run)
@@ -406,6 +409,8 @@ def prop_C15(run):
     import rules_sym as _rs
     _rs.conditional_scope_rule(run)
     _rs.simple_lookup_context(run)
+    import rules_det
+    rules_det.det3(run, [f for f in run.prog.real_fns() if "symbol_manager" in f.id], rule="SYM-state")   # a look-up is a function of its arguments: no cell/atomic state in the symbol table
     run.rules_run += ["SYM declare: level test, duplicate test and insertion use one scope expression", "SYM lookup: scope = enclosing[0..level], descent name by name, unknown is an error",
                       "SYM walkers: sibling AST walkers update the context on every Symbol node", "SYM use: lookups use the context of the point of use; unresolved is an error on the last pass",
                       "SYM parse: one level per dot", "PIPE: all symbols are declared before anything is resolved"]
@@ -428,6 +433,7 @@ def prop_C16(run):
     import rules_sym as _rs
     _rs.conditional_scope_rule(run)
     _rs.simple_lookup_context(run)
+    _rs.walker_rules(run)                      # the declaration walker updates the scope on every Symbol node, also in a spliced-in arm
     run.rules_run += ["COND resolve_ifs: decided #if replaced in place by exactly the selected arm", "COND leftover #if always fails with a message",
                       "COND command-line definitions override first, freeze, and unused ones fail", "COND who-reads the arms of an #if",
                       "COND pre-pass is an unbounded fixed point", "INC nested include", "PIPE leftover check before definitions/matching; unused-define check before output"]
